@@ -74,6 +74,34 @@ theorem lookup_phrases (s : State) (hs : Inv s) (k : Key) :
 theorem entries_exact (s : State) (hs : Inv s) (hn : ∀ key, shadowed s key = false) :
     IsEntries (abs s) (entries s) := entries_agrees hs hn
 
+/-- class UpdatePersisted is *exact* for the enumeration: a shadowed key is always enumerated twice, so
+    `entries()` is a correct enumeration **iff** no key is shadowed -/
+theorem entries_exact_iff (s : State) (hs : Inv s) :
+    IsEntries (abs s) (entries s) ↔ ∀ key, shadowed s key = false := by
+  refine ⟨?_, entries_agrees hs⟩
+  intro h key
+  obtain ⟨k, t⟩ := key
+  cases hsh : shadowed s (k, t) with
+  | false => rfl
+  | true =>
+    exfalso
+    obtain ⟨hg, ⟨w, hw⟩, l, hl, el, p, hp, ep⟩ := (shadowed_iff hs).mp hsh
+    have hnd := h.1
+    unfold TrieBuf.entries at hnd
+    rw [List.filter_append, List.map_append, List.nodup_append] at hnd
+    have hgrave : ∀ e : Entry, e.1 = k → e.2.text = t → (!(s.grave.contains (e.1, e.2.text))) = true := by
+      intro e e1 e2
+      rw [e1, e2]
+      simpa [List.contains_eq_mem] using hg
+    have m1 : (k, t) ∈ ((Trie.entries s.snap).filter (fun e => !(s.grave.contains (e.1, e.2.text)))).map
+        (fun e => (e.1, e.2.text)) := by
+      refine List.mem_map.mpr ⟨(k, p), List.mem_filter.mpr ⟨mem_trie_entries.mpr ⟨l, hl, el, hp⟩, hgrave _ rfl ep⟩, ?_⟩
+      simp [ep]
+    have m2 : (k, t) ∈ ((btEntries s.btree).filter (fun e => !(s.grave.contains (e.1, e.2.text)))).map
+        (fun e => (e.1, e.2.text)) := by
+      refine List.mem_map.mpr ⟨(k, mkPhrase t w), List.mem_filter.mpr ⟨mem_btEntries.mpr ⟨w, hw, rfl⟩, hgrave _ rfl rfl⟩, rfl⟩
+    exact hnd.2.2 _ m1 _ m2 rfl
+
 /-- prefix lookup outside classes FuzzyOverTombstoneOrPending and UpdatePersisted: one entry per
     phrase live under a matching key, with the highest frequency among them -/
 theorem fuzzy_exact (s : State) (hs : Inv s) (q : Key) (hq : fuzzyMatch q q = true)
@@ -224,8 +252,8 @@ theorem layered_runUser (u : State) (ops : List Op) :
     rw [ih]
     unfold Layered.applyUser
     cases hf : Layered.forwarded op with
-    | true => simp [List.filter_cons, hf, run_cons]
-    | false => simp [List.filter_cons, hf]
+    | true => simp [hf, run_cons]
+    | false => simp [hf]
 
 /-- `Layered` over system layers `sys` (any dictionaries) and a user layer `u` whose exact lookup of
     `k` is a correct answer for the map `m`: each phrase once; a phrase is returned iff a system layer
